@@ -134,6 +134,16 @@ void prop_enumerate(void) {
       block(n, w, (tpat){3, 1, ni, 0}, (pat){P_PR, 1, 6}, 0);
       if (vx_tier) { block(n, w, (tpat){3, 2, ni, 0}, (pat){P_LBL, ni % 7, 0}, 0); block(n, w, (tpat){3, 0, ni + 50, 0}, (pat){P_ID, 0, 0}, 0); }
     }
+  } else if (!strcmp(mode, "widths")) {
+    /* every word width 1..17 of the right-hand side (resp. every row count for the right variants): the row-addition kernels
+       of the base cases are unrolled by 8 words with a switch on the remainder */
+    static const int N[] = {33, 64, 65, 130, 200};
+    for (int ni = 0; ni < 5; ni++) for (int words = 1; words <= 17; words++) for (int d = 0; d < 3; d++) {
+      int w = 64 * words - (d == 0 ? 63 : d == 1 ? 1 : 0);
+      if (!vx_tier && d == 0 && words > 2) continue;
+      block(N[ni], w, (tpat){3, 0, ni + 7, 0}, PRB, 0);
+      if (words % 4 == 1) block(N[ni], w, (tpat){2, 0, 0, 0}, (pat){P_O, 0, 0}, 0);
+    }
   } else if (!strcmp(mode, "big")) {
     /* recursion thresholds of the configuration built */
     int bs = __M4RI_MUL_BLOCKSIZE;
